@@ -12,7 +12,7 @@ TITLE = "Procedural generators give valid meshes of the promised shape, all para
 LEAN_MODULES = ["Mouette.Props.C14", "Mouette.Props.C14NoUnused", "Mouette.Props.C14Oriented", "Mouette.Props.C14Sphere", "Mouette.Props.C14Cylinder", "Mouette.Props.C14Rings", "Mouette.Props.C14Triangle", "Mouette.Props.C14Geom",
                 "Mouette.Props.C14Euler", "Mouette.Props.C14CylinderTopo", "Mouette.Props.C14RingsTopo", "Mouette.Props.C14GridTopo",
                 "Mouette.Props.C14TriangleTopo", "Mouette.Props.C14Connected", "Mouette.Props.C14Verts", "Mouette.Props.C14Derived", "Mouette.Props.C14Bisect",
-                "Mouette.Props.C14Solids", "Mouette.Props.C14NoRepeat", "Mouette.Props.C14Distinct"]
+                "Mouette.Props.C14Solids", "Mouette.Props.C14NoRepeat", "Mouette.Props.C14Distinct", "Mouette.Props.C14Dual"]
 
 # ------------------------------------------------------------------------------------------------
 # translated fragments
@@ -562,6 +562,7 @@ def model_request(case):
     if g == "axis_aligned_cube": return f"hexahedron_full {b(case.get('colored'))} {b(case['bools'][0])} 0"
     if g == "icosphere" and not case.get("defaults"): return f"counts icosphere {case['ints'][0]}"
     if g == "sphere_fibonacci": return "translated sphere_fibonacci"
+    if g == "dual_mesh": return "translated dual_mesh"
     if g == "cylindrify_edges" and not case.get("no_edges"): return f"counts cylindrify {len(_CYL_PTS) - 1} {case['ints'][0]}"
     if g not in MODELLED: return None
     if case.get("volume"): return None          # volume meshes: faces come from cell completion (C02), not from the table
@@ -799,6 +800,7 @@ def impl_observe(case):
     if case["gen"] == "cylindrify_edges": return f"{len(m.vertices)} {len(F)}"
     if case["gen"] == "icosphere": return f"{len(m.vertices)} {len(F)}"
     if case["gen"] == "sphere_fibonacci": return "verts:" + _check_row_points(case, m)
+    if case["gen"] == "dual_mesh": return "dual:" + _check_dual(case, m)
     rep = _report(len(m.vertices), F)
     if case["gen"] in FULL_BODY:
         if case.get("volume"): rep = f"{len(m.vertices)} ; VOL ; VOL ; VOL"      # faces of a volume mesh come from cell completion (C02)
@@ -831,6 +833,27 @@ FULL_BODY = {"tetrahedron", "hexahedron", "hexahedron_4pts", "axis_aligned_cube"
 # generator -> name of the translated corner list (vlib/gen/c14solids.py)
 SOLID_CORNERS = {"tetrahedron": "tetrahedronCorners", "hexahedron": "hexahedronCorners", "hexahedron_4pts": "hexa4ptsCorners",
                  "axis_aligned_cube": "axisCube", "quad": "quadCorners", "triangle": "triangleCorners", "icosahedron": "icosahedronCorners"}
+
+
+def _check_dual(case, m):
+    """translation validation of the two loops of `dual_mesh` (dual face V == vertex_to_faces(V), order included; one dual vertex per
+    face) and of the HYPOTHESIS of Props/C14Dual.lean on the base mesh: every ring vertex_to_faces(V) is duplicate-free, holds
+    exactly the faces containing V, and consecutive faces F -> G share an edge run V -> w in F and w -> V in G (`RingAt`)"""
+    base = _LAST.get("base")
+    if base is None: return "no-base"
+    bF = [[int(x) for x in f] for f in base.faces]
+    nV = len(base.vertices)
+    rings = [[int(x) for x in base.connectivity.vertex_to_faces(V)] for V in range(nV)]
+    F = [[int(v) for v in f] for f in m.faces]
+    if len(m.vertices) != len(bF): return f"vertex-count({len(m.vertices)}!={len(bF)})"
+    if F != rings: return "faces-are-not-the-rings"
+    sd = [set(_sides(f)) for f in bF]
+    for V, r in enumerate(rings):
+        if len(set(r)) != len(r) or sorted(r) != [k for k, f in enumerate(bF) if V in f]: return f"ring-hypothesis(members@{V})"
+        for k in range(len(r)):
+            a, b = r[k], r[(k + 1) % len(r)]
+            if not any((V, w) in sd[a] and (w, V) in sd[b] for w in bF[a]): return f"ring-hypothesis(order@{V})"
+    return "ok"
 
 
 def _check_row_points(case, m):
@@ -945,6 +968,11 @@ def _check_vertex_expressions(case, m):
         apex = _apex_by_translated_bisection(case)
         if apex is None: return "bisection-does-not-stop"
         if any(abs(x - float(y)) > 1e-9 * max(1.0, abs(x)) for x, y in zip(apex, m.vertices[0])): return "apex-differs-from-translated-bisection"
+        # hypothesis `hang` of ring_apex_defect_within_tolerance_partial on this input: angle_3pts(A, (0,0,z), B) = arccos((c + z^2)/(1 + z^2))
+        import mouette as M_
+        N_ = int(case["ints"][0]); z_ = float(apex[2]); c_ = math.cos(2 * math.pi / N_)
+        a_ = float(M_.geometry.angle_3pts(M_.Vec(1., 0., 0.), M_.Vec(0., 0., z_), M_.Vec(c_, math.sin(2 * math.pi / N_), 0.)))
+        if abs(a_ - math.acos(max(-1., min(1., (c_ + z_ * z_) / (1 + z_ * z_))))) > 1e-7: return "angle_3pts-is-not-arccos-of-the-apex-cosine"
     got = [[float(c) for c in p] for p in m.vertices]
     if len(got) != len(want): return f"count({len(want)}!={len(got)})"
     for k, (a, b) in enumerate(zip(want, got)):
@@ -960,6 +988,8 @@ def compare(case, model, impl):
         model = head + " ; " + " ".join([t[0]] + [f"{a} {b}" for a, b in pairs]) if t else model
         if case["gen"] == "vector_field": model += " ; verts:ok"
         return None if model == impl else f"polyline differs: translated-source model {model[:120]} vs implementation {impl[:120]}"
+    if case["gen"] == "dual_mesh":
+        return None if impl == "dual:ok" else f"dual_mesh differs from its translated loops / the ring hypothesis of Props/C14Dual.lean fails ({impl})"
     if case["gen"] == "sphere_fibonacci":
         return None if impl == "verts:ok" else f"vertex positions differ from the translated point formula ({impl})"
     if case["gen"] == "icosphere":
@@ -1357,7 +1387,13 @@ REQUIRED_THEOREMS = ["tetrahedron_closed_oriented", "icosahedron_closed_oriented
                      # round 5: no two faces with the same vertex SET (Props/C14Distinct.lean); normal-form layer for 5 more families
                      "torus_quads_sameSet", "torus_tris_sameSet", "grid_quads_sameSet", "grid_tris_sameSet", "torus_facesDistinct",
                      "unit_grid_facesDistinct", "fan_facesDistinct", "flat_ring_facesDistinct", "ring_facesDistinct",
-                     "cylinder_facesDistinct", "facesDistinct_flag"]
+                     "cylinder_facesDistinct", "facesDistinct_flag",
+                     # round 6
+                     "sphere_uv_facesDistinct", "unit_triangle_facesDistinct",
+                     "dual_loops", "dual_positions", "dual_face_is_ring", "mem_dualFaces", "dual_inRange", "dual_noUnused",
+                     "dual_face_simple", "dual_closed",
+                     "apex_cos_formula", "apex_cos_strict_mono", "ring_defect_monotone", "ring_bisect_axis_invariant",
+                     "ring_apex_defect_within_tolerance_partial"]
 # every function defined in the files C14 is anchored in: what ties it to the Lean side.  "translated": a Generated definition is
 # re-extracted from that body on every run and a REQUIRED theorem (bridge / property) is stated about it; the part after the colon
 # says which parts of the body are covered and what is left to the oracle.
@@ -1380,11 +1416,11 @@ SOURCE_MAP = {
     _F + "quad": "translated: both face tables and stored corners — quad_disk, quad_parallelogram_corners",
     _F + "unit_grid": "translated: face loops and vertex loops — unit_gridFaces_norm, unit_grid_*_euler, unit_grid_in_unit_square; the uv attribute by the oracle",
     _F + "unit_triangle": "translated: face loops (normal-form layer unit_triangleFaces_norm) and vertex loops — unit_triangleFaces_addressed, unit_triangle_disk (nu >= nv; open finding for nu < nv)",
-    _R + "ring": "translated: face loop (normal-form layer ringFaces_norm), rim vertices, the bisection step with numpy aliasing — ring_*_euler, ring_rim_on_unit_circle, ring_bisect_step_spec; the apex defect reached by the float bisection by the oracle",
+    _R + "ring": "translated: face loop (normal-form layer ringFaces_norm), rim vertices, the bisection step with numpy aliasing — ring_*_euler, ring_rim_on_unit_circle, ring_bisect_step_spec; ring_defect_monotone, ring_apex_defect_within_tolerance_partial (defect met within the stopping tolerance given the arccos specification of angle_3pts, which is checked numerically on every ring case); termination of the float loop and the final value by the oracle",
     _R + "flat_ring": "translated: face loop (normal-form layer flat_ringFaces_norm) and the chained rotations — flat_ring_euler, flat_ring_facesDistinct, flat_ring_angle",
     _P + "chain_of_vertices": "translated: edge list through the pair iterators — chain_open, chain_loop; vertex positions (from_arrays) by the oracle",
     _P + "vector_field": "translated: edge loop and the two points stored per row — vector_field_edges, vector_field_points; the shape checks / padding by the oracle",
-    _D + "dual_mesh": "translated: loop heads, mode dispatch, what each loop appends — dual_counts, dual_modes_as_named; `vertex_to_faces` belongs to C01, the attribute functions to C07: positions and face rings by the oracle",
+    _D + "dual_mesh": "translated: both loops as functional terms (dualVerts, dualFaces), mode dispatch — dual_loops, dual_positions, dual_face_is_ring, dual_inRange, dual_noUnused, dual_closed (under the ring hypothesis RingAt = what C01's ring_sorted gives for vertex_to_faces; the hypothesis is checked on every explored base mesh), dual_counts, dual_modes_as_named; the attribute functions (barycentre / circumcentre) belong to C07: positions by the oracle",
     _T + "spherify_vertices": "translated: argument binding of icosphere(), loop + merge — transform_bindings, spherify_counts; merge belongs to C06",
     _T + "cylindrify_edges": "translated: argument binding of cylinder(), loop + merge — transform_bindings, cylindrify_counts; mean_edge_length belongs to C07",
 }
@@ -1460,7 +1496,7 @@ def search_on_break(rng, broken, mismatches):
     for b_ in broken:
         if b_["kind"] == "lake-build":
             fs = set(re.findall(r"Mouette/(?:Props|Lemmas|Generated|Model)/(\w+)\.lean", b_["detail"]))
-            if not fs or not fs <= {"C14Solids", "C14SolidsGeom", "C14SolidsLemmas"}: solids_only = False
+            if not fs or not fs <= {"C14Solids", "C14SolidsGeom", "C14SolidsLemmas", "C14Dual", "C14DualLemmas"}: solids_only = False
         elif b_["kind"] == "translator":
             if b_["name"] not in solid_sites: solids_only = False
         elif b_["kind"] != "missing-theorem": solids_only = False
